@@ -78,7 +78,8 @@ fn node_cfg_dev(rng: &mut impl Rng, mode: Mode, flavour: u64, focus: &str, idx: 
     }
     if focus == "C14" && rng.gen_bool(0.5) {
         // the node is also reachable through a forwarded address which it advertises
-        c.advertise_addresses = vec![format!("[::]:{}", 50 + idx)];
+        // (every second one an IPv4 address: the node's address list then mixes both families)
+        c.advertise_addresses = if idx % 2 == 0 { vec![format!("[::]:{}", 50 + idx)] } else { vec![format!("192.0.2.{}:{}", 10 + idx, 50 + idx)] };
     }
     c
 }
@@ -113,7 +114,7 @@ fn one_dev<P: Protocol>(run: u64, stream: u64, mode: Mode, steps: u64, focus: &s
     for k in 0..n {
         let c = node_cfg_dev(&mut rng, mode, run, focus, k, tap);
         for a in &c.advertise_addresses {
-            sim.alias.insert(a.parse().unwrap(), k as u16 + 1);
+            sim.alias.insert(crate::net::mapped_addr(a.parse().unwrap()), k as u16 + 1);
         }
         if focus == "C14" && c.advertise_addresses.is_empty() && rng.gen_bool(0.4) {
             // address translation: the others see this node at an address it does not know itself
